@@ -107,6 +107,10 @@ def oracle(spec, res):
             st = tr.state_at(d, a['end'])
             if not (Trace.st_complete if d == a['ev'] else Trace.st_done)(st):
                 bad.append((d, st))
+        pend = [(d, tr.unprocessed(spec['scn'], d, a['end'])) for d in sorted(tr.desc(a['ev'], upto_seq=a['end']))]
+        pend = [(d, u) for d, u in pend if u]
+        if pend and not bad:
+            out.append(V('descendant_not_processed_on_every_bus_at_await_end', f'{a["who"]} await {a["ev"]} returned at seq {a["end"]}; still to run: {pend}', **tags))
         if bad:
             clause = 'child_incomplete_at_await_end' if any(d == a['ev'] for d, _ in bad) else 'descendant_incomplete_at_await_end'
             out.append(V(clause, f'{a["who"]} await {a["ev"]} returned at seq {a["end"]} with {bad}', **tags))
